@@ -169,4 +169,24 @@ theorem C01_history_same_entities (s0 : Server) (hw : s0.world = []) (hc0 : s0.c
         Vis.isVisible (Joint.run { srv := s0 } (ops ++ [.frame ticked ms parts])).1.srv.white (cell x.2 se) = true :=
   Joint.session_view s0 hw hc0 hb ops ticked ms parts hl hr hc
 
+/-- **… under any behaviour of the unreliable channel** (`Joint.session_view_any_schedule`): the
+same statement for a receiver that gets the session's update messages in order and, anywhere in
+between, arbitrary mutate messages — lost, duplicated, reordered, stale, or never sent by this
+server at all (`Arrival`, `runArrivals`): it stays well-formed and holds exactly the replicated
+entities visible to it.  The clause of C01 about *which entities* therefore holds for every
+history of the server and every schedule of both channels that delivers the update messages. -/
+theorem C01_history_same_entities_any_schedule (s0 : Server) (hw : s0.world = []) (hc0 : s0.clients = [])
+    (hb : s0.removalBuf = []) (ops : List Joint.Op) (ticked : Bool) (ms : Nat) (parts : Nat → List (List Nat))
+    (hl : Joint.Legal2 { srv := s0 } (ops ++ [.frame ticked ms parts]))
+    (hr : (Joint.run { srv := s0 } ops).1.srv.running = true)
+    (hc : (preRun (Joint.run { srv := s0 } ops).1.srv ticked ms).tickChanged = true) :
+    ∀ x ∈ (Joint.run { srv := s0 } (ops ++ [.frame ticked ms parts])).1.srv.clients, x.2.authorized = true →
+      ∀ arrivals : List Arrival,
+        updatesOf arrivals = (Joint.runLog { srv := s0 } (fun _ => []) (ops ++ [.frame ticked ms parts])).2 x.1 →
+        WF (runArrivals {} arrivals) ∧
+        ∀ se, held (runArrivals {} arrivals) se ↔
+          marked (Joint.run { srv := s0 } (ops ++ [.frame ticked ms parts])).1.srv.world se ∧
+          Vis.isVisible (Joint.run { srv := s0 } (ops ++ [.frame ticked ms parts])).1.srv.white (cell x.2 se) = true :=
+  Joint.session_view_any_schedule s0 hw hc0 hb ops ticked ms parts hl hr hc
+
 end Replicon.C01
